@@ -180,7 +180,7 @@ class AstAnalyzer:
                 while curr != prev:
                     prev = curr
                     curr = (visit_block(stmt.body, prev) | live_out).difference({p_loop_var})
-                return curr
+                return curr | _used_vars(stmt.iter)
             if isinstance(stmt, ast.While):
                 cond_vars = _used_vars(stmt.test)
                 prev = None
